@@ -1,5 +1,6 @@
 // C11 driver: compat strto*/ato*, qsort, bsearch (symbols renamed igv_*).
 #include "common/vlog.h"
+#include "common/sstep.h"
 #include <stdint.h>
 #include <inttypes.h>
 using namespace vlog;
@@ -58,6 +59,25 @@ int main(int argc, char **argv) {
             long long eo = end - big;      // end offset, logged as two halves of 16 bits below 2^47 and a sign
             Ev e("StrtoBig"); e.str("fn", fn.c_str()).i("ch", ch).str("ks", t[3].c_str()).i("kh", (long long)(k >> 16)).i("kl", (long long)(k & 0xffff)).bytes("tail", tl.data(), tl.size()).i("base", base).le("val", v, w)
              .i("eneg", eo < 0 ? 1 : 0).i("eh", (long long)((eo < 0 ? -eo : eo) >> 16)).i("el", (long long)((eo < 0 ? -eo : eo) & 0xffff)); e.end(); return; }
+        if (t[0] == "QsortI") {   // QsortI size div keys points : qsort interrupted at an instruction boundary by a complete qsort + bsearch of another array
+            // (an interrupt or signal handler that sorts); about `points` evenly spread boundaries.  Both sorts are logged as ordinary Qsort events.
+            size_t size = num(t[1]); g_div = num(t[2]); auto keys = blist(t[3]); size_t n = keys.size(); long points = t[4][0] == 'k' ? -atol(t[4].c_str() + 1) : num(t[4]);
+            unsigned char *blk = (unsigned char *)malloc(n * size ? n * size : 1); g_base = blk; g_n = n; g_size = size; g_key = 0; g_nest = false;
+            unsigned keep = g_op_timeout; if (keep) { g_op_timeout = 120; watchdog(true); g_op_timeout = keep; }
+            auto prepare = [&] { for (size_t i = 0; i < n; ++i) fill(blk + i * size, size, keys[i], (int)i); g_cmps.clear(); g_cmps.reserve(65536); g_inner = false; igv_srand(7); };
+            prepare(); igv_qsort(blk, n, size, cmp_elem); inner_sort();                       // first use (lazy binding)
+            prepare(); long N = sstep::run(0, [&] { igv_qsort(blk, n, size, cmp_elem); }, [](void *) { inner_sort(); }, 0);
+            long step = points < 0 ? N + 1 : N <= points ? 1 : (N + points - 1) / points;
+            for (long k = points < 0 ? -points : 1 + (step > 1 ? (long)(n * 7 + size) % step : 0); k <= N; k += step) {
+                prepare(); sstep::run(k, [&] { igv_qsort(blk, n, size, cmp_elem); }, [](void *) { inner_sort(); }, 0);
+                if (!g_inner) break;
+                std::string ln = "QsortI " + t[1] + " " + t[2] + " " + t[3] + " k" + std::to_string(k);
+                { std::vector<long long> ak, ai, ok; for (size_t i = 0; i < n; ++i) { ak.push_back(blk[i * size]); ai.push_back(id_of(blk + i * size, size)); ok.push_back(intact(blk + i * size, size) ? 1 : 0); }
+                  Ev e("Qsort"); e.i("size", size).i("div", g_div).bytes("keys", keys.data(), n).ints("akeys", ak).ints("aids", ai).ints("intact", ok).i("ncmp", g_cmps.size() / 2).i("nested", 0).i("nest", k).i("steps", N).str("nestline", ln.c_str()); e.end(); }
+                { std::vector<long long> ak, ai, ok; for (size_t i = 0; i < IN_N; ++i) { ak.push_back(in_blk[i * IN_SZ]); ai.push_back(id_of(in_blk + i * IN_SZ, IN_SZ)); ok.push_back(intact(in_blk + i * IN_SZ, IN_SZ) ? 1 : 0); }
+                  Ev e("Qsort"); e.i("size", (long)IN_SZ).i("div", 1).bytes("keys", in_keys, IN_N).ints("akeys", ak).ints("aids", ai).ints("intact", ok).i("ncmp", 0).i("inner", 1).i("nest", k).str("nestline", ln.c_str()); e.end(); }
+            }
+            free(blk); return; }
         if (t[0] == "Qsort" || t[0] == "Bsearch" || t[0] == "QsortN" || t[0] == "BsearchN") {   // Qsort size div keys      Bsearch size div keys key
             size_t size = num(t[1]); g_div = num(t[2]); auto keys = blist(t[3]); size_t n = keys.size();
             unsigned char *blk = (unsigned char *)malloc(n * size ? n * size : 1); g_base = blk; g_n = n; g_size = size; g_cmps.clear();
